@@ -19,7 +19,9 @@ from sim.core.seams import Seams, SimClock, TimeProxy, make_datetime_proxy
 PATTERNS = ['/a', '/<x>', '/b/', '/a/<y>', '/<p+>', '/c/<n:int>']
 PATHS = ['/a', '/b', '/b/', '/a/z', '/q', '/q/r/s', '/', '/c/7', '/c/x', '/a/', '//a']
 OUTCOMES = {'ok': '200', 'red': '302', 'r404': '404', 'x409': '409', 'nb403': '403', 'nbret404': '404',
-            'boom': "'ValueError'", 'boom2': "'KeyError'", 'ise': '500', 'x423': '423', 'r451': '451', 'x599': '599'}
+            'boom': "'ValueError'", 'boom2': "'KeyError'", 'ise': '500', 'x423': '423', 'r451': '451', 'x599': '599',
+            # HTTPExceptions of the underlying library (werkzeug.exceptions): they have a code, too
+            'wz410': '410', 'wzkey': '400', 'wzabort': '418'}
 NONBREAKING = ('nb403', 'nbret404')
 
 
@@ -51,6 +53,15 @@ def make_ep(out):
         if out == 'x599':
             from clastic.errors import HTTPException
             raise HTTPException(code=599)
+        if out == 'wz410':
+            from werkzeug.exceptions import Gone
+            raise Gone()
+        if out == 'wzkey':
+            from werkzeug.datastructures import MultiDict
+            return Response(MultiDict()['q'])       # BadRequestKeyError, as request.args['q'] raises it
+        if out == 'wzabort':
+            from werkzeug.exceptions import abort
+            abort(418)
         if out == 'boom2':
             raise KeyError('k')
         if out == 'ise':
